@@ -457,6 +457,15 @@ func c08MPT(tier string, st *c08stats, kind string) {
 					m = canon
 					m.StorageHash = common.BytesToHash(hash32("x")).Hex()
 					proofs = append(proofs, pv{"wrong-storage-hash", m.JSON(), false})
+					// a genuine account proof combined with the storage hash and storage proof of ANOTHER storage trie (the
+					// other generation's), where the slot holds a different value
+					{
+						o := worlds[3-pg].Proof([]byte(k.path()))
+						m = canon
+						m.StorageHash = o.StorageHash
+						m.StorageProof = o.StorageProof
+						proofs = append(proofs, pv{"storage-proof-from-another-trie", m.JSON(), false})
+					}
 					m = canon
 					m.StorageProof = append(append([]EthStorageRes{}, canon.StorageProof...), canon.StorageProof...)
 					proofs = append(proofs, pv{"two-storage-proofs", m.JSON(), false})
